@@ -25,5 +25,7 @@ func redisReset() {
 		rcli = redis.NewClient(&redis.Options{Addr: mr.Addr()})
 		gx.VerifSetRedisClient(rcli)
 	})
-	mr.FlushAll()
+	if !suppressFlush {
+		mr.FlushAll()
+	}
 }
